@@ -459,7 +459,7 @@ pub fn check_doc(ctx: &Ctx, m: &PModule, info: &mut CaseInfo, disagreements: &st
 
 pub fn run(ctx: &Ctx) {
     let dis = std::sync::atomic::AtomicU64::new(0);
-    ctx.run_prop_shrink("server", ctx.tier.pick(700, 30_000), 8, 300, || module(pycfg()), |m, info| check_doc(ctx, m, info, &dis));
+    ctx.run_prop_shrink("server", ctx.tier.pick(1_500, 60_000), 8, 300, || module(pycfg()), |m, info| check_doc(ctx, m, info, &dis));
     ctx.set_extra("parser_disagreements", json!(dis.load(std::sync::atomic::Ordering::SeqCst)));
 }
 
